@@ -807,4 +807,116 @@ def parseText (path : String) (text : List UInt8) : Except Err File :=
     | .ok f _ => .ok f
     | .err e _ => .error e
 
+/-! ### The loops once more, as plain equations (`Res.bind` form, for unfolding in proofs and examples) -/
+
+theorem accountLoop_eq (start : Nat) (s : St) : accountLoop start s =
+    if cur s != 58 then .ok ⟨rng start s, false⟩ s
+    else (readCharacter 58 s).bind (annotate "parsing account" start) fun _ s1 =>
+      (readWhile1 "a letter or a digit" isAlphanumeric s1).bind (annotate "parsing account" start) fun _ s2 =>
+      accountLoop start s2 := by
+  rw [accountLoop]
+  split
+  · rfl
+  · split
+    · rename_i h; simp only [h, Res.bind]
+    · rename_i h
+      simp only [h, Res.bind]
+      split
+      · rename_i h2; simp only [h2]
+      · rename_i h2; simp only [h2]
+
+theorem perfLoop_eq (start : Nat) (acc : List Commodity) (s : St) : perfLoop start acc s =
+    if cur s != 44 then .ok acc.reverse s
+    else
+      let ann := annotate "parsing performance" start
+      (readCharacter 44 s).bind ann fun _ s1 =>
+      (readWhile isWhitespace s1).bind ann fun _ s2 =>
+      (parseCommodity s2).bind ann fun c s3 =>
+      (readWhile isWhitespace s3).bind ann fun _ s4 =>
+      perfLoop start (c :: acc) s4 := by
+  rw [perfLoop]
+  split
+  · rfl
+  · simp only
+    split
+    · rename_i h; simp only [h, Res.bind]
+    · rename_i h
+      simp only [h, Res.bind]
+      split
+      · rename_i h2; simp only [h2]
+      · rename_i h2
+        simp only [h2]
+        split
+        · rename_i h3; simp only [h3]
+        · rename_i h3
+          simp only [h3]
+          split
+          · rename_i h4; simp only [h4]
+          · rename_i h4; simp only [h4]
+
+theorem addonsLoop_eq (start : Nat) (perf : Performance) (accr : Accrual) (s : St) : addonsLoop start perf accr s =
+    (readAlternative ["@performance", "@accrue"] s).bind (annotate "parsing addons" start) fun (r, kw) s1 =>
+    (addonStep start perf accr r kw s1).bind (fun e _ => e) fun (perf', accr') s2 =>
+    (readRestOfWhitespaceLine s2).bind (fun _ s3 => annotate "parsing addons" start [Frame.zero] s3) fun _ s3 =>
+    if cur s3 != 64 then .ok ⟨rng start s3, perf', accr'⟩ s3 else addonsLoop start perf' accr' s3 := by
+  rw [addonsLoop]
+  split
+  · rename_i h; simp only [h, Res.bind]
+  · rename_i h
+    simp only [h, Res.bind]
+    split
+    · rename_i h2; simp only [h2]
+    · rename_i h2
+      simp only [h2]
+      split
+      · rename_i h3; simp only [h3]
+      · rename_i h3; simp only [h3]
+
+theorem bookingsLoop_eq (start : Nat) (acc : List Booking) (s : St) : bookingsLoop start acc s =
+    (parseBooking s).bind (annotate "parsing transaction" start) fun b s1 =>
+    (readRestOfWhitespaceLine s1).bind (annotate "parsing transaction" start) fun _ s2 =>
+    if isWhitespaceOrNewline (cur s2) || atEOF s2 then .ok (b :: acc).reverse s2
+    else bookingsLoop start (b :: acc) s2 := by
+  rw [bookingsLoop]
+  split
+  · rename_i h; simp only [h, Res.bind]
+  · rename_i h
+    simp only [h, Res.bind]
+    split
+    · rename_i h2; simp only [h2]
+    · rename_i h2; simp only [h2]
+
+theorem balancesLoop_eq (start : Nat) (acc : List Balance) (s : St) : balancesLoop start acc s =
+    (parseBalance s).bind (annotate "parsing `balance` directive" start) fun b s1 =>
+    (readRestOfWhitespaceLine s1).bind (annotate "parsing `balance` directive" start) fun _ s2 =>
+    if isWhitespaceOrNewline (cur s2) || atEOF s2 then .ok (b :: acc).reverse s2
+    else balancesLoop start (b :: acc) s2 := by
+  rw [balancesLoop]
+  split
+  · rename_i h; simp only [h, Res.bind]
+  · rename_i h
+    simp only [h, Res.bind]
+    split
+    · rename_i h2; simp only [h2]
+    · rename_i h2; simp only [h2]
+
+theorem fileLoop_eq (path : String) (start : Nat) (acc : List Directive) (s : St) : fileLoop path start acc s =
+    if atEOF s then .ok ⟨rng start s, acc.reverse⟩ s
+    else (fileItem s).bind (annotate (fileDesc path) start) fun d s1 =>
+      if atEOF s1 then .ok ⟨rng start s1, (pushOpt d acc).reverse⟩ s1
+      else (readRestOfWhitespaceLine s1).bind (annotate (fileDesc path) start) fun _ s2 =>
+        fileLoop path start (pushOpt d acc) s2 := by
+  rw [fileLoop]
+  split
+  · rfl
+  · split
+    · rename_i h; simp only [h, Res.bind]
+    · rename_i h
+      simp only [h, Res.bind]
+      split
+      · rfl
+      · split
+        · rename_i h2; simp only [h2]
+        · rename_i h2; simp only [h2]
+
 end Knut.Syntax
